@@ -2,4 +2,5 @@ INIT GInit
 NEXT GNext
 CONSTANT Kinds = {"toks", "wf", "filter", "warn", "ref"}
 CONSTANT MaxToks = 3
+CONSTANT WfMax = 2
 CHECK_DEADLOCK FALSE
